@@ -153,6 +153,9 @@ func genPersistCase(r *rand.Rand, cfg Cfg) Case {
 				live[k] = v
 				ops = append(ops, opIns(0, k, v))
 			}
+			if r.Intn(3) == 0 {
+				ops = append(ops, "stat 0") // IsDirty after every kind of modification
+			}
 		}
 		if r.Intn(6) == 0 { // delete down to empty
 			for _, u := range uni {
